@@ -163,6 +163,8 @@ static int get_register_mips_rsp(
   uint8_t type = RSP_ELEMENT_WHOLE;
   int l = strlen(token_1);
 
+  if (l == 0) { return -1; }
+
   if (token_1[l - 1] == 'q')
   {
     type = RSP_ELEMENT_QUARTER;
